@@ -94,8 +94,8 @@ PROPS["C01"] = {
 }
 PROPS["C02"] = {
     "level": "proof",
-    "budget": {"quick": [("c02", 8000)], "thorough": [("c02", 1500000)], "search": [("c02", 2000000)]},
-    "rule": "every legal move of every corpus position, then random games of 1-600 plies from corpus/generated valid positions with the board compared (all 8 bitboards, side, rights, ep, counters) after EVERY ply against the model and against Spec.play; plus a malformed stream (arbitrary boards x arbitrary moves) for make_move totality incl. panics; distinct = distinct (board, move) pairs",
+    "budget": {"quick": [("c02", 8000), ("c04", 40)], "thorough": [("c02", 1500000), ("c04", 4000)], "search": [("c02", 2000000), ("c04", 8000)]},
+    "rule": "every legal move of every corpus position, then random games of 1-600 plies from corpus/generated valid positions with the board compared (all 8 bitboards, side, rights, ep, counters) after EVERY ply against the model and against Spec.play; plus a malformed stream (arbitrary boards x arbitrary moves) for make_move totality incl. panics; and moves applied through the engine's own `position ... moves` path (generator c04: several related position commands per engine, board after each vs the fold of Spec.play); distinct = distinct (board, move) pairs",
     "trusted_base": [KERNEL, AXIOMS, TIE, EXTRACT, "Spec/Chess.lean play/keepsRight is the meaning of 'successor position'"],
     "assumptions": ["u8/i8 square arithmetic modelled by Nat/Int (wrap-around unreachable on valid boards)"],
     "finding_key": lambda sf: None,
